@@ -5,10 +5,16 @@ Spec: NameUri.tla (executable reference), NameUriMC.tla (bounded domains + laws)
 A  TLC evaluates the laws on the reference over four exhaustive domains (NameUriMC Mode = comp / name /
    pair / ord): round trip through shorthand and canonical text, every generated spelling parses to the
    same component/name, canonical text has no shorthand, wire round trip, byte order of shortest-form
-   encodings = NDN canonical order, prefix test = component-wise equality.  Vacuity: POSTCONDITION Witnesses.
+   encodings = NDN canonical order, prefix test = component-wise equality; Mode = text: component TEXTS - every
+   character of an alphabet of ASCII and non-ASCII characters (all Unicode general categories: letters, decimal digits
+   of other scripts, full-width / compatibility forms of CHARSET characters, marks, characters outside the BMP) in every
+   position of every component kind (generic / NN= value, type number, convention keyword and number, digest, inside
+   and next to percent-escapes): what Component.from_str has to accept is CHARSET text and means what it means at the
+   Name level.  Vacuity: POSTCONDITION Witnesses.
 B  spec -> code: for every enumerated component / name TLC also computes (state variable `out`, read from
    -dump) every spelling and the wire form; each is given to Component.from_str / Name.from_str /
-   Name.normalize / Name.from_bytes / Name.to_bytes and must yield the spec's components; aliasing pass: after
+   Name.normalize / Name.from_bytes / Name.to_bytes and must yield the spec's components (raw spellings and the
+   enumerated texts also DIRECTLY to Component.from_str: whatever it accepts must be the spec's component); aliasing pass: after
    each conversion the RETURNED list/components are mutated in place and the same input is converted again in
    every direction - the answers must still be the spec's (pure functions) and the input unchanged.  The domain sorted
    by the reference order (pair / ord) is compared with Python's ordering of bytes(component) lists,
@@ -20,7 +26,11 @@ C  code -> spec: Name.to_str / to_canonical_uri / Component.to_str / to_canonica
    compared with NameLess / PrefixByComponents - order / equality on the library's OWN return values (constructed,
    parsed, decoded; no harness copies except memoryview x memoryview, which Python cannot order), printing functions
    on every container type and spelling (NAME_INPUTS); arbitrary URI strings with raw non-ASCII characters (= their
-   UTF-8 bytes in the reference) read by Name.from_str / normalize must give the reference's name; Name.is_prefix is called in all nine combinations of argument
+   UTF-8 bytes in the reference) read by Name.from_str / normalize must give the reference's name; arbitrary component
+   strings (rand_text; rand_uni_text = a well-formed component text of any kind with characters replaced by / mixed with
+   arbitrary Unicode characters: look-alikes of the replaced ASCII character under NFKC / case mapping / int(), members of
+   every general category, random scalar values) are given to Component.escape_str, Name.normalize([s]) AND unescaped to
+   Component.from_str (NameUri!FromStrClauses); Name.is_prefix is called in all nine combinations of argument
    forms (component list / wire / URI on either side), also on names crossing the 253-byte Name length boundary.
 """
 import json, os, time, traceback
@@ -33,7 +43,9 @@ MODES = {
     'name': ['I_NameShort', 'I_NameCanon', 'I_NameCanonNoShorthand', 'I_NameForms', 'I_Wire'],
     'pair': ['I_NameOrder', 'I_Trichotomy', 'I_Prefix', 'I_PrefixOrder'],
     'ord': ['I_CompOrder', 'I_CompTrichotomy'],
+    'text': ['I_TextStrictIsLoose', 'I_TextEscapeIdem', 'I_TextRoundTrip', 'I_TextAsName', 'I_TextSelfJudged'],
 }
+DUMPED = ('comp', 'name', 'text')
 ALT = (50, 52, 54, 56, 58)
 JUDGE_CFG = 'NameUriJudge.cfg'
 
@@ -72,15 +84,15 @@ def blist(name):
 
 # ------------------------------------------------------------------------------------------ stage A / TLC
 
-def run_mode(ctx, mode, nr, nq, workers):
+def run_mode(ctx, mode, nr, nq, workers, np_=6):
     cfg = os.path.join(tlc.BUILD, 'NameUriMC_%s_%s.cfg' % (mode, ctx.tier))
-    tlc.write_cfg(cfg, constants={'Mode': '"%s"' % mode, 'NR': nr, 'NQ': nq}, invariants=MODES[mode],
+    tlc.write_cfg(cfg, constants={'Mode': '"%s"' % mode, 'NR': nr, 'NQ': nq, 'NP': np_}, invariants=MODES[mode],
                   postcondition='PostOK')
-    out = os.path.join(tlc.BUILD, 'c09-%s-%s.%s' % (mode, ctx.tier, 'dump' if mode in ('comp', 'name') else 'ndjson'))
+    out = os.path.join(tlc.BUILD, 'c09-%s-%s.%s' % (mode, ctx.tier, 'dump' if mode in DUMPED else 'ndjson'))
     if os.path.exists(out):
         os.remove(out)
     extra, env = [], {'C09_OUT': ''}
-    if mode in ('comp', 'name'):
+    if mode in DUMPED:
         extra = ['-dump', out]
     else:
         env = {'C09_OUT': out}
@@ -141,11 +153,12 @@ def replay_comp(rec):
         yield 'Component.from_hex', 'wire', ex or 'wrong-bytes', 'from_hex(%r, %d) -> %r' % (v.hex(), t, ex or bytes(got))
     for f in rec['forms']:
         text = txt(f['s'])
-        if f['k'] not in ('raw', 'rawU'):      # Component.from_str takes escaped text only
-            got, ex = _try(Component.from_str, text)
-            n += 1
-            if ex or bytes(got) != enc:
-                yield 'Component.from_str', f['k'], ex or 'wrong-component', 'from_str(%r) -> %r, spec %r' % (text, ex or bytes(got), enc)
+        # Component.from_str has to accept CHARSET text only (f.strict); a raw spelling it may refuse, but what it
+        # accepts must be the spec's component
+        got, ex = _try(Component.from_str, text)
+        n += 1
+        if (ex and f['strict']) or (not ex and bytes(got) != enc):
+            yield 'Component.from_str', f['k'], ex or 'wrong-component', 'from_str(%r) -> %r, spec %r' % (text, ex or bytes(got), enc)
         got, ex = _try(Name.normalize, [text])
         n += 1
         if ex or blist(got) != [enc]:
@@ -155,6 +168,42 @@ def replay_comp(rec):
             n += 1
             if ex or blist(got) != [enc]:
                 yield 'Name.from_str', f['k'], ex or 'wrong-name', 'from_str(%r) -> %r, spec [%r]' % ('/' + text, ex or blist(got), enc)
+    yield None, None, None, n
+
+
+def text_class(raw):
+    return 'text:raw-non-ascii' if any(b >= 128 for b in raw) else 'text:ascii'
+
+
+def replay_text(rec):
+    """rec: {s, strict:{k,c,enc,wire}, loose:{...}, slash} from NameUriMC Mode=text: one component TEXT given unescaped to
+    Component.from_str (has to accept it iff strict.k = ok; whatever it accepts is judged by loose) and to the Name-level
+    entry points (have to answer loose)."""
+    Name, Component = _lib()
+    text = txt(rec['s'])
+    strict, loose = rec['strict'], rec['loose']
+    cls = text_class(rec['s'])
+    n = 1
+    got, ex = _try(Component.from_str, text)
+    if ex and strict['k'] == 'ok':
+        yield 'Component.from_str', cls, 'refused-' + ex, 'from_str(%r) -> %s, spec %r' % (text, ex, bytes(strict['enc']))
+    elif not ex and loose['k'] == 'ok' and bytes(got) != bytes(loose['enc']):
+        yield 'Component.from_str', cls, 'wrong-component', 'from_str(%r) -> %r, the text denotes %r' % (text, bytes(got), bytes(loose['enc']))
+    direct = None if ex else bytes(got)
+    calls = [('Name.normalize[str]', lambda: blist(Name.normalize([text])), [bytes(loose['enc'])]),
+             ('Name.to_bytes[str]', lambda: bytes(Name.to_bytes([text])), bytes(loose['wire']))]
+    if text and not rec['slash']:
+        calls.append(('Name.from_str', lambda: blist(Name.from_str('/' + text)), [bytes(loose['enc'])]))
+        calls.append(('Name.normalize(str)', lambda: blist(Name.normalize('/' + text)), [bytes(loose['enc'])]))
+    for fn, call, want in calls:
+        got, ex = _try(call)
+        n += 1
+        if loose['k'] == 'ok' and (ex or got != want):
+            yield fn, cls, ('refused-' + ex) if ex else 'wrong-component', '%s of %r -> %r, spec %r' % (fn, text, ex or got, want)
+        if fn == 'Name.normalize[str]' and loose['k'] == 'err' and direct is not None and (ex or got != [direct]):
+            # outside the reference grammar: only the statement itself - an accepted form normalises to the same component
+            yield 'Component.from_str', cls, 'accepts-alone', (
+                'from_str(%r) -> %r but Name.normalize([%r]) -> %r' % (text, direct, text, ex or got))
     yield None, None, None, n
 
 
@@ -466,15 +515,18 @@ def record_name_aliased(jname):
 
 
 def record_esc(s):
+    """one component string: escape_str, the Name-level reading (str element of a list) and - unescaped, whatever
+    characters it holds - Component.from_str"""
     Name, Component = _lib()
     esc = Component.escape_str(s)
+
+    def ans(got, ex):
+        if ex:
+            return {'k': 'err', 'c': {'t': 0, 'v': []}}
+        return {'k': 'ok', 'c': {'t': Component.get_type(got), 'v': list(bytes(Component.get_value(got)))}}
     got, ex = _try(Name.normalize, [s])
-    if ex:
-        lib = {'k': 'err', 'c': {'t': 0, 'v': []}}
-    else:
-        c = got[0]
-        lib = {'k': 'ok', 'c': {'t': Component.get_type(c), 'v': list(bytes(Component.get_value(c)))}}
-    return {'k': 'esc', 'raw': codes(s), 'esc': codes(esc), 'lib': lib}
+    lib = ans(got[0] if not ex else None, ex)
+    return {'k': 'esc', 'raw': codes(s), 'esc': codes(esc), 'lib': lib, 'comp': ans(*_try(Component.from_str, s))}
 
 
 def _lib_name(call, s):
@@ -663,13 +715,87 @@ UNI_WORDS = ['Алек', 'Bölter', 'x²', 'Σπυρίδων', '٣', '١٢٣', '
              'naïve', 'Ω', 'ñ', '한글', 'i̇', '\u00a0', 'a\u200db', '·', 'º', 'ª', '𝟘', '𐐀']
 
 
+# -- arbitrary Unicode characters in component text: the alphabet is every Unicode scalar value, drawn so that every general
+#    category and every character that some str / re / int() predicate or transformation of Python takes for an ASCII
+#    one (NFKC / case mapping to a CHARSET or reserved character, decimal / digit value) is likely to occur
+_UNI = {}
+
+
+def _uni_tables():
+    if not _UNI:
+        import unicodedata as ud
+        by_cat, alike = {}, {}
+        ascii_targets = set(map(chr, range(32, 127)))
+        for cp in range(0x80, 0x110000):
+            if 0xD800 <= cp <= 0xDFFF:
+                continue
+            ch = chr(cp)
+            by_cat.setdefault(ud.category(ch), []).append(ch)
+            looks = {ud.normalize('NFKC', ch), ch.lower(), ch.upper(), ch.casefold()}
+            for d in (ud.decimal(ch, None), ud.digit(ch, None)):
+                if d is not None:
+                    looks.add(str(d))
+            for a in looks & ascii_targets:
+                alike.setdefault(a, []).append(ch)
+        _UNI['cats'] = [by_cat[k] for k in sorted(by_cat)]
+        _UNI['alike'] = alike
+        _UNI['alike_all'] = sorted({c for v in alike.values() for c in v})
+    return _UNI
+
+
+def uni_char(rng, instead_of=None):
+    """a non-ASCII character; instead_of = the ASCII character it replaces (then often one that passes for it)"""
+    u = _uni_tables()
+    x = rng.random()
+    if x < 0.40:
+        pool = u['alike'].get(instead_of) if instead_of is not None and rng.random() < 0.8 else None
+        return rng.choice(pool or u['alike_all'])
+    if x < 0.75:
+        return rng.choice(rng.choice(u['cats']))
+    if x < 0.88:
+        return rng.choice(rng.choice(UNI_WORDS))
+    cp = rng.randrange(0x80, 0x110000 - 0x800)
+    return chr(cp if cp < 0xD800 else cp + 0x800)
+
+
+def rand_wellformed_text(rng):
+    """a well-formed ASCII component text of a random kind"""
+    def value():
+        return ''.join(rng.choice(['a', 'b', 'Z', 's', 'v', 't', '0', '1', '3', '9', '-', '.', '_', '~', '%41', '%C3%A9', '%2f', '%00'])
+                       for _ in range(rng.randint(0, 5)))
+    x = rng.random()
+    if x < 0.30:
+        return value() or 'a'
+    if x < 0.50:
+        return rng.choice(['8', '08', '32', '253', '65535', '1', '50', '7', '3']) + '=' + value()
+    if x < 0.75:
+        return rng.choice(['seg', 'off', 'v', 't', 'seq']) + '=' + str(rng.choice(BOUNDARY_NUMS + [3, 13, 33, rng.getrandbits(rng.randint(1, 64))]))
+    return rng.choice(['sha256digest=', 'params-sha256=']) + rng.randbytes(rng.choice([0, 1, 2, 32])).hex()
+
+
+def rand_uni_text(rng):
+    """component strings with arbitrary Unicode characters in arbitrary positions: a well-formed text of any kind
+    (generic / NN= / convention / digest, with escapes) in which 1..3 characters are replaced by a non-ASCII character
+    (often a look-alike of the replaced one) or have one inserted next to them"""
+    t = list(rand_wellformed_text(rng))
+    for _ in range(rng.choice([1, 1, 1, 2, 2, 3])):
+        if t and rng.random() < 0.55:
+            i = rng.randrange(len(t))
+            t[i] = uni_char(rng, t[i] if len(t[i]) == 1 and ord(t[i]) < 128 else None)
+        else:
+            t.insert(rng.randrange(len(t) + 1), uni_char(rng))
+    return ''.join(t)
+
+
 def rand_uri_text(rng):
     """Name URI strings as a user types them: raw non-ASCII characters (letters, digits, marks, symbols) as whole
     components and inside components, mixed with ASCII, typed/shorthand prefixes, escapes and every slash pattern"""
     def piece():
         x = rng.random()
-        if x < 0.30:
+        if x < 0.15:
             return rng.choice(UNI_WORDS)
+        if x < 0.35:
+            return rand_uni_text(rng).replace('/', '')
         if x < 0.50:
             return ''.join(rng.choice(UNI_WORDS + ['a', 'Z', '7', 'abc', '42']) for _ in range(rng.randint(2, 3)))
         if x < 0.62:
@@ -725,14 +851,16 @@ FN_OF_CLAUSE = {'to_str': 'Name.to_str', 'canon': 'Name.to_canonical_uri', 'cano
                 'cstr': 'Component.to_str', 'ccanon': 'Component.to_canonical_uri', 'wire': 'Name.to_bytes',
                 'esc_changes_component': 'Component.escape_str', 'esc_incomplete': 'Component.escape_str',
                 'from_str': 'Name.normalize[str]', 'from_str_refused': 'Name.normalize[str]',
+                'comp_from_str': 'Component.from_str', 'comp_from_str_refused': 'Component.from_str',
+                'comp_from_str_alone': 'Component.from_str',
                 'uri_from_str': 'Name.from_str', 'uri_from_str_refused': 'Name.from_str',
                 'uri_normalize': 'Name.normalize(str)', 'uri_normalize_refused': 'Name.normalize(str)',
                 'less': 'order(list-of-bytes)', 'vless': 'order(name-value-bytes)', 'eq': 'equality',
                 'prefix': 'Name.is_prefix', 'cless': 'order(bytes(component))'}
 
 
-def input_class(rec):
-    if rec['k'] == 'uri':
+def input_class(rec, clause=''):
+    if rec['k'] == 'uri' or (rec['k'] == 'esc' and clause.startswith('comp_')):
         return 'raw-non-ascii' if any(b >= 128 for b in rec['raw']) else 'general'
     if rec.get('alias'):
         return 'after-caller-mutation'
@@ -756,7 +884,7 @@ def report_rejected(ctx, recs, rejected, stage):
     for i in sorted(rejected):
         rec = recs[i]
         for cl in rejected[i]:
-            sig = 'C09/%s/%s/%s' % (FN_OF_CLAUSE.get(cl, cl), input_class(rec), cl)
+            sig = 'C09/%s/%s/%s' % (FN_OF_CLAUSE.get(cl, cl), input_class(rec, cl), cl)
             slim = {k: rec[k] for k in ('k', 'alias', 'inp', 'n', 'raw', 'names', 'comps') if k in rec}
             ctx.violation(sig, '%s: reference rejects clause %s for %s' % (stage, cl, describe(rec)),
                           {'kind': 'judge', 'clause': cl, 'input': slim})
@@ -768,7 +896,8 @@ def describe(rec):
     if rec['k'] == 'uri':
         return 'URI %r: from_str=%s normalize=%s' % (txt(rec['raw']), json.dumps(rec['lib']), json.dumps(rec['norm']))
     if rec['k'] == 'esc':
-        return 'text %r: escape_str=%r library=%s' % (txt(rec['raw']), txt(rec['esc']), json.dumps(rec['lib']))
+        return 'text %r: escape_str=%r Name.normalize([text])=%s Component.from_str(text)=%s' % (
+            txt(rec['raw']), txt(rec['esc']), json.dumps(rec['lib']), json.dumps(rec.get('comp')))
     return json.dumps({k: rec[k] for k in ('names', 'comps') if k in rec})[:600]
 
 
@@ -777,7 +906,8 @@ def run(ctx):
                 'forms, input container types) and all pairs of the sorted domains on the library; C = library outputs '
                 'judged by TLC. non-trivial = distinct component or name that needs at least one of: percent-escape, '
                 'typed/shorthand syntax, 3-byte TLV number, empty component (slash rule); or a distinct random set of '
-                'related names whose pairwise order/prefix matrix is judged')
+                'related names whose pairwise order/prefix matrix is judged; or a distinct enumerated component text with '
+                'characters outside CHARSET that denotes a component')
     ctx.assumptions = ['TLC evaluates NameUri.tla faithfully; the URI grammar was transcribed from the docstrings of '
                        'ndn.encoding.Name / Component (no "additional periods" rule, as documented)',
                        'Python bytes/list comparison is lexicographic']
@@ -789,7 +919,7 @@ def run(ctx):
         _run(ctx, pool, t0, nr, nq)
     finally:
         pool.shutdown(wait=True)
-        for m in ('comp', 'name'):      # the state dumps are large (up to ~300 MB); everything else in build/ is small
+        for m in DUMPED:      # the state dumps are large (up to ~300 MB); everything else in build/ is small
             p = os.path.join(tlc.BUILD, 'c09-%s-%s.dump' % (m, ctx.tier))
             if os.path.exists(p):
                 os.remove(p)
@@ -797,8 +927,9 @@ def run(ctx):
 
 def _run(ctx, pool, t0, nr, nq):
     # the four exhaustive domains run concurrently with the (independent) random part of stage C
-    wk = {'comp': ctx.pick(2, 4), 'name': ctx.pick(4, 10), 'pair': ctx.pick(2, 6), 'ord': 2}
-    futs = {m: pool.submit(run_mode, ctx, m, nr, nq, wk[m]) for m in ('name', 'comp', 'pair', 'ord')}
+    wk = {'comp': ctx.pick(2, 4), 'name': ctx.pick(4, 10), 'pair': ctx.pick(2, 6), 'ord': 2, 'text': 2}
+    np_ = ctx.pick(6, 20)       # non-ASCII characters combined pairwise in the text domain
+    futs = {m: pool.submit(run_mode, ctx, m, nr, nq, wk[m], np_) for m in ('name', 'comp', 'text', 'pair', 'ord')}
     rnd, jrnd = [], None
     if 'C' in ctx.stages:
         rng = ctx.rng
@@ -820,6 +951,12 @@ def _run(ctx, pool, t0, nr, nq):
             rnd.append(safe(ctx, record_uri, t, {'k': 'uri', 'raw': codes(t)}))
         for _ in range(ctx.pick(1200, 12000)):
             t = rand_text(rng)
+            rnd.append(safe(ctx, record_esc, t, {'k': 'esc', 'raw': codes(t)}))
+        for w in UNI_WORDS:             # every non-ASCII word handed to the component-level parser as it is
+            for t in (w, '8=' + w, '32=a' + w, w + '%41', '%C3' + w, w + '=a', 'seg=' + w, 'sha256digest=' + w):
+                rnd.append(safe(ctx, record_esc, t, {'k': 'esc', 'raw': codes(t)}))
+        for _ in range(ctx.pick(1500, 20000)):
+            t = rand_uni_text(rng)
             rnd.append(safe(ctx, record_esc, t, {'k': 'esc', 'raw': codes(t)}))
         for _ in range(ctx.pick(250, 3000)):
             ns = rand_related_names(rng, rng.randint(4, 9))
@@ -882,6 +1019,34 @@ def _run(ctx, pool, t0, nr, nq):
                 ctx.nt(['c', rec['t'], rec['v']])
         ctx.sample({'kind': 'B-comp', 't': comp_recs[7]['t'], 'v': comp_recs[7]['v'],
                     'forms': {f['k']: txt(f['s']) for f in comp_recs[7]['forms']}})
+    collect('text')
+    text_recs = [s['out'] for s in urikit.read_dump(outs['text'], ('out',)) if isinstance(s.get('out'), dict)]
+    if not text_recs:
+        raise tlc.MachineryError('no text records in the TLC dump')
+    tsweep, jtsweep = [], None
+    if 'C' in ctx.stages:
+        # the enumerated texts through escape_str / Name.normalize / Component.from_str, judged by NameUriJudge
+        tsweep = [safe(ctx, record_esc, txt(rec['s']), {'k': 'esc', 'raw': rec['s']}) for rec in text_recs]
+        ctx.traces += sum(1 for r in tsweep if r is None)
+        tsweep = [r for r in tsweep if r is not None]
+        jtsweep = pool.submit(urikit.judge_batches, 'NameUriJudge', JUDGE_CFG, 'c09-t-%s' % ctx.tier, tsweep, 4000, 2)
+    nt = 0
+    if 'B' in ctx.stages:
+        for rec in text_recs:
+            nt += 1
+            for fn, style, obs, detail in guarded(ctx, 'B-text', lambda r: list(replay_text(r)), rec) or ():
+                if fn is None:
+                    ctx.evaluations += detail
+                    continue
+                ctx.violation('C09/%s/%s/%s' % (fn, style, obs), 'B text: ' + detail,
+                              {'kind': 'B-text', 'rec': rec, 'fn': fn, 'style': style})
+            if rec['loose']['k'] == 'ok' and rec['strict']['k'] == 'err':
+                ctx.nt(['t', rec['s']])
+        ctx.traces += nt
+        ctx.sample({'kind': 'B-text', 'text': txt(text_recs[len(text_recs) // 2]['s']),
+                    'strict': text_recs[len(text_recs) // 2]['strict']['k'], 'loose': text_recs[len(text_recs) // 2]['loose']})
+        ctx.note('B: %d component texts given to Component.from_str / Name.normalize / Name.from_str / Name.to_bytes (t=%.0fs)'
+                 % (nt, time.time() - t0))
     collect('pair')
     collect('ord')
     if 'B' in ctx.stages:
@@ -927,7 +1092,8 @@ def _run(ctx, pool, t0, nr, nq):
         ctx.note('B: %d components, %d names replayed in every generated spelling/container; %d name pairs, '
                  '%d component pairs (t=%.0fs)' % (nb, nn, len(prec['names']) ** 2, len(orec['comps']) ** 2, time.time() - t0))
     if 'C' in ctx.stages:
-        for label, recs, fut in (('random', rnd, jrnd), ('enumerated components', sweep, jsweep)):
+        for label, recs, fut in (('random', rnd, jrnd), ('enumerated components', sweep, jsweep),
+                                 ('enumerated texts', tsweep, jtsweep)):
             results, rejected = fut.result()
             for k, r in enumerate(results):
                 ctx.add_tlc('NameUriJudge %s batch %d' % (label, k), r)
@@ -965,6 +1131,8 @@ def replay(ctx, path):
         return 1 if rej else 0
     if kind == 'B-comp':
         bad = [x for x in replay_comp(obj['rec']) if x[0]]
+    elif kind == 'B-text':
+        bad = [x for x in replay_text(obj['rec']) if x[0]]
     elif kind == 'B-name':
         bad = [x for x in replay_name(obj['rec']) if x[0]]
     elif kind == 'B-alias':
